@@ -165,7 +165,7 @@ def train_smt(
     )
 
     if len(unsolvable_pool) > 0:
-        result_st = smt_stage2(
+        result_stage2 = smt_stage2(
             task_set,
             train_st,
             replay_buffer,
@@ -180,6 +180,8 @@ def train_smt(
             seed,
             progress,
         )
+        if result_stage2 is not None:
+            result_st = result_stage2
     else:
         warnings.warn(
             "Unsolvable pool is empty. There is no second SMT stage.",
@@ -222,6 +224,7 @@ def smt_stage1(
     avg_training_performances = np.full(n_tasks, -np.finfo(float).max)
     training_performances = [deque(maxlen=n_average) for _ in range(n_tasks)]
     task_budgets = np.full(n_tasks, kappa * b_total)
+    result_st = None  # stays None if the first stage has no budget
 
     while global_step < b1:
         updated_training_pool = copy.deepcopy(training_pool)
@@ -362,6 +365,7 @@ def smt_stage2(
     progress,
 ):
     """SMT will iterate over the unsolvable tasks in stage 2."""
+    result_st = None  # stays None if the second stage has no budget left
     while global_step < b_total:
         for task_id in unsolvable_pool:
             if isinstance(task_set, VectorEnv):
